@@ -28,6 +28,8 @@ import YarlProofs.C02Tokens
   segments survive dot-segment removal under an authority (GAPS 2, open half) and C02 at URL level for build, every
   text-accepting modifier, `/`, joinpath, the query operations and join (GAPS 3).
   Continued in C02HeadlineMore3.lean (C06More2.lean, added later): user / password of `build(authority=…)` (GAPS 3).
+  Continued further in C02HeadlineMore4.lean (headline theorems for the proof modules added after the last refresh:
+  C02More3.lean; the GAPS block below cites them).
 -/
 set_option linter.unusedVariables false
 namespace Yarl
@@ -222,6 +224,9 @@ GAPS:
     `rawPassword e u` succeed, are present exactly when `split_netloc` reads a non-empty user / a password from the
     supplied authority (which is the RFC split `Rfc.authoritySplit` of it), and percent-decode to the same bytes as
     those.
+    EXTENDED (the `NoSurrogate s` hypothesis removed) by C02_surr_encodeUrl_userinfo_decode (C02More3.lean), see
+    C02_headline_surr_constructor_user_password (C02HeadlineMore4.lean): for every Python string `s` the canonical
+    user / password percent-decode to the bytes of the supplied texts WITH THEIR LONE SURROGATES DROPPED (item 5).
  2. CLOSED by C02_encodeUrl_segments, C02_encodeUrl_pairs, C07_encodeUrl_components (C07More.lean) and — the half that
     was open — C02_normalized_segments, C02_normalized_segments_sublist (C02More.lean), see
     C02_headline_constructor_path_segments, C02_headline_constructor_query_pairs,
@@ -243,6 +248,11 @@ GAPS:
     intended behaviour (C15).  WHAT REMAINS: the theorems say THAT the stored segments are such a subsequence, not WHICH
     subsequence (that is `normalize_path_segments` = RFC 3986 5.2.4, property C15: C15_rfc); the segment count does
     change there (C02_headline_constructor_path_segments_fails_for_dot_segments), "never change[s]" is to be read modulo C15.
+    EXTENDED (the `NoSurrogate s` hypothesis removed; every clause about `stripSurr` of the supplied path / query, see
+    item 5) by C02_surr_encodeUrl_segments, C02_surr_encodeUrl_pairs, C02_surr_normalized_segments,
+    C02_surr_encodeUrl_components, C02_surr_encodeUrl_decode (C02More3.lean), see
+    C02_headline_surr_constructor_path_segments, C02_headline_surr_constructor_query_pairs (C02HeadlineMore4.lean; the
+    dot-segment form C02_surr_normalized_segments has no headline restatement).
  3. CLOSED (`build(authority=…)`: PARTLY CLOSED, see the end of this item) by C01_with_user_reads_back, C01_with_password_reads_back (C01Str.lean) and
     C02_build_user_password, C02_build_path, C02_build_query_string, C02_build_query_pairs, C02_build_fragment,
     C02_with_user, C02_with_password, C02_with_fragment, C02_with_path, C02_with_name(_rejects_slash), C02_with_suffix,
@@ -291,13 +301,72 @@ GAPS:
     supplied query text).  `NoSurrogate` is needed: C02_headline_query_parse_qsl_fails_for_lone_surrogate.  (The
     quoter-level theorems of this file still treat ';' as a protected delimiter although `parseQsl` does not split on
     it; that is extra, not missing.)
+    EXTENDED: without `NoSurrogate`, `queryPairs u = parseQsl (stripSurr p.query)` for every constructed URL
+    (C02_surr_encodeUrl_pairs, C02More3.lean; last clause of C02_headline_surr_constructor_query_pairs).
  5. Lone surrogates: every requoter statement needs `NoSurrogate s` (or speaks about `stripSurr s`);
     C02_requote_surrogate_example shows the decoded bytes DO change when a lone surrogate sits inside an
     escape ("%\ud80041" → "A").  The property text has no such exception; this is not in KNOWN_FINDINGS.
     (Now visible in the headline layer: C02_headline_decoded_value_fails_for_lone_surrogate_in_escape here,
     C02_headline_query_parse_qsl_fails_for_lone_surrogate in C02HeadlineMore.lean.)
+    SHARPENED TO AN EXACT STATEMENT (the clause of the property stays FALSE for the original text) by
+    C02_run_stripSurr, C02_surr_quoter_level, C02_surr_only_inside_escapes, C02_escSurrFree_of_noSurrogate,
+    C02_surr_requoters_verbatim, C02_utf8Encodable_iff, C02_stripSurr_eq_self_iff, C02_stripSurr_splitOn / _partition /
+    _append, C02_surr_encodeUrl_* (constructor), C02_surr_build_user_password / _build_path / _build_query_string /
+    _build_fragment / _build_authority_user_password, C02_surr_with_user / _with_password / _with_fragment /
+    _with_path / _with_name / _with_suffix / _with_query_string / _extend_query_string / _query_pairs / _joinpath,
+    and the computed C02_surr_url_counterexample, C02_surr_hidden_dot_segment, C02_surr_user_vanishes,
+    C02_surr_joinpath_head_check_bypassed (C02More3.lean), see C02_headline_surr_mechanism,
+    C02_headline_surr_quoter_level, C02_headline_surr_requoters_verbatim, C02_headline_surr_constructor_user_password /
+    _path_segments / _query_pairs / _verbatim, C02_headline_surr_build_path, C02_headline_surr_joinpath,
+    C02_headline_surr_with_user_with_password, C02_headline_surr_fails_for_original_text,
+    C02_headline_surr_hidden_dot_segment, C02_headline_surr_user_vanishes,
+    C02_headline_surr_joinpath_head_check_bypassed (C02HeadlineMore4.lean).  Proved: every generated quoter (both
+    backends) gives the same output for `s` and for `stripSurr s` (`s` without its lone surrogates), so every C02
+    statement of items 1–4 holds for every Python string WITHOUT a `NoSurrogate` hypothesis when "the text that was
+    supplied" is read as `stripSurr` of the supplied COMPONENT (splitting happens on the original text and commutes with
+    `stripSurr`: a surrogate is never a delimiter); `stripSurr` is the identity exactly on the strings Python can
+    encode as UTF-8, for which this is the property verbatim.  For the quoters of DECODED text (build, with_*, `/`,
+    joinpath, with_query) the decoded-value clauses hold for the ORIGINAL text (`utf8s` does not see a lone
+    surrogate); what moves are counts and emptiness (a user / name made of surrogates only quotes to ""; the "must
+    not start with '/'" test of joinpath sees the original text: `.joinpath('\ud800/x')` is accepted and appends an
+    empty segment).  For the REQUOTERS (constructor) the original text can be kept under the weaker, decidable guard
+    `C02_EscSurrFree` (no lone surrogate within the two characters after a '%'); outside it the property is FALSE in
+    every component: `URL('http://%\ud80041:%\udfff42@h/%\ud80043/x?k%\ud8003Dv=%\ud80041#%\ud80045')` is stored
+    `http://A:B@h/C/x?k%3Dv=A#E` (decoded values change, an ENCODED '=' appears that was not supplied); a segment
+    ".\ud800." is requoted to ".." and removes its neighbour (segment count changes although no supplied segment is the
+    text "." / ".."); `URL('http://\ud800@h/')` has no user.  NOT in KNOWN_FINDINGS.jsonl.
+    STILL OPEN / not stated: the WHOLE-URL statement `URL(s) == URL(stripSurr s)` is not stated; the header of
+    C02More3.lean says (no theorem) that it is false for the authority's HOST (not quoted: a surrogate there reaches
+    the NFKC screen / IDNA) and for `cleanUrl` (leading C0 / space stripping stops at a surrogate) — the constructor
+    theorems are component-wise on `splitUrl e.o s = .ok p`; nothing is proved about a lone surrogate in the host.
  6. Literal space in a query: it becomes '+', so "literal ones stay literal" holds for '+' only in the sense of
     C02_headline_query_plus_status (literal '+' out = literal '+' or ' ' in); decoded meaning is unaffected.
+    CLOSED (as an exact statement at URL level; the observation itself stands) by C02_form_constructor,
+    C02_form_with_query_string, C02_form_build_query_string, C02_form_requoter_tokens, C02_form_quoter_tokens,
+    C02_form_decode_is_tokenwise, C02_form_requoter_table (C02More3.lean), see C02_headline_form_constructor,
+    C02_headline_form_with_query_string, C02_headline_form_build_query_string, C02_headline_form_tokens_reading
+    (C02HeadlineMore4.lean).  Proved, for `URL(s)`, `with_query(<str>)` and `build(query_string=)` (Python strings, no
+    `NoSurrogate` hypothesis; build: encoded=False and no truthy `query=`): the canonical query has one byte token per
+    supplied token (constructor: per token of the supplied query with lone surrogates dropped; the other two: per
+    UTF-8 byte of the supplied text, every byte literal) with the same FORM-decoded byte at every position; '&' '=' ';'
+    keep their status (literal / encoded) at their position; "%2B" stays "%2B" and "%20" stays "%20" (constructor); a
+    literal '+' of the output sits exactly where the input had a literal '+' OR a literal ' ' — the only change of
+    spelling of a literal token; the output has no literal space; `with_query(<str>)` / `build(query_string=)` never
+    write an encoded '&' '=' ';' '+' ' ' and store a supplied '%' as "%25".  So "literal ones stay literal" is FALSE by
+    the letter for a literal ' ' (it becomes the literal '+', same form-decoded byte) and true for everything else.
+    Not covered: `extend_query` / `update_query` with a string, and `build(query=<str>)` (their stored pieces:
+    C02_headline_query_string_argument, C02_headline_update_query, C06_headline_build_query_str_readback — no token
+    statement).
+ 7. NEW (with C02More3.lean).  Trusted readings introduced by the statements of items 5 / 6: `stripSurr`,
+    `C02_Utf8Encodable` (proved equal to `PyStr ∧ NoSurrogate`; that Python's `str.encode("utf-8")` raises exactly
+    outside it is a REMARK, not expressible in the model), `C02_EscSurrFree`, `C02_formVal` (proved:
+    `(btoks s).map C02_formVal = pctDecodeQs s`), `tokOut`.  MODEL CONVENTION: `pctDecode` / `pctDecodeQs` / `btoks` /
+    `utf8s` DROP lone surrogates (they have no UTF-8 form; the quoters encode with errors="ignore"), so "the bytes
+    obtained by percent-decoding (as UTF-8) the text that was supplied" is given a value by the model even for texts
+    Python cannot encode; every "FALSE for the original text" statement of item 5 is relative to that convention (it
+    is what makes `pctDecode "%\ud80041"` the bytes "%41").  The two computed constructor counterexamples run with an
+    NFKC oracle that is the identity on their authority texts ("%\ud80041:%\udfff42@h", "h") — an assumption about
+    `unicodedata.normalize` on ASCII text with lone surrogates, checked by the differential harness only.
 -/
 
 end Yarl
